@@ -7,9 +7,12 @@ of the claim, does not fail the run).
 """
 
 QUICK_TIMEOUT = 900      # s per harness (quick-tier membership is set from measurements well below this)
-THOROUGH_TIMEOUT = 1800  # s per harness
+THOROUGH_TIMEOUT = 1800
+# program-level harnesses: 2-5 min each on an idle machine, 3x that when other checks run beside them
+TMPL_TIMEOUT = 2400  # s per harness
 SHARD_SIZE = 24          # harnesses per cargo-kani invocation
 MAX_PARALLEL_SHARDS = 3
+QUICK_SHARD_SIZE = 40    # quick tier: one invocation per (cbmc_args, timeout) group
 
 STUBS = [
     "std::fmt::format -> String::new() (Kani only; all error messages are format!; no property is about message text)",
@@ -341,7 +344,7 @@ def tmpl_harnesses(rows, family, prop, what):
         plain = r["harness"] == "%s_%s" % (family, r["name"])  # the unit / list input variants are thorough-tier
         tier = "quick" if ((quick is None or r["name"] in quick) and (plain or (prop in ("C17", "C10") and r["harness"].endswith("_inlist")))) else "thorough"
         desc = "%s: source `%s`%s, input value %s — %s" % (r["name"], r["source"], (" (variant of `%s`)" % r["original"]) if r["original"] else "", r["input"], what)
-        out.append(H(r["harness"], "tmpl", tier, desc, cbmc_args=FIELD_SENS, timeout=1500 if tier == "thorough" else 900, jobs_weight=1.3, shard_size=6))
+        out.append(H(r["harness"], "tmpl", tier, desc, cbmc_args=FIELD_SENS, timeout=TMPL_TIMEOUT, jobs_weight=1.3, shard_size=6))
     return out
 
 
@@ -386,6 +389,17 @@ def _c18(rows):
     }
 
 
+# The quick tier is "the check you would run on every change": it has to finish in well under 15 minutes of wall
+# time on the 16-core sandbox, cold build included. Membership is by name, chosen from idle-machine measurements
+# (tools/harvest_times.py -> timings.json): every member finished in < 250 s and the members of one property sum to
+# < ~2500 CPU-seconds. Everything else a property owns runs in the thorough tier.
+QUICK_SETS = {
+}
+
+# harnesses that did not finish in 900 s on an idle machine (24 Sep measurements)
+SLOW = set("disp_access_concatenation disp_apply_list".split())
+
+
 def build_properties(tsv):
     rows = read_templates(tsv)
     props = dict(PROPERTIES_STATIC)
@@ -410,6 +424,14 @@ def build_properties(tsv):
         if seen:
             v = dict(v)
             v["harnesses"] = list(seen.values())
+            qs = QUICK_SETS.get(k)
+            for h in v["harnesses"]:
+                if qs is not None:
+                    h["tier"] = "quick" if h["name"] in qs else "thorough"
+                if h["name"] in SLOW:
+                    # measured not to finish inside the per-harness budget on an idle machine: kept, run in the
+                    # thorough tier, reported by name when inconclusive, never counted as discharged
+                    h["tier"], h["optional"], h["timeout"] = "thorough", True, max(h.get("timeout") or 0, 2400)
             out[k] = v
     return out
 
